@@ -25,9 +25,7 @@ class Files(staticfiles.BaseFiles[ASGIApp]):
         if_none_match: str,
         if_modified_since: str,
     ) -> Response:
-        if self.if_none_match(
-            FileResponse.generate_etag(stat_result), if_none_match
-        ) or self.if_modified_since(stat_result.st_ctime, if_modified_since):
+        if self.not_modified(stat_result, if_none_match, if_modified_since):
             response = Response(304)
         else:
             response = FileResponse(filepath, stat_result=stat_result)
